@@ -252,6 +252,7 @@ def judge(chk, traces):
         chk.case()
         hdr = cs.header(scn)
         hdr['ev'] = conv_events(o['ev'])
+        hdr['focus'] = sorted(c for c, (p_, _n) in CLAUSES.items() if p_ == pid or c == 14)
         key = json.dumps(hdr, sort_keys=True)
         if key in seen:
             continue
